@@ -1,0 +1,58 @@
+//go:build verif
+
+package promise
+
+// Contracts for the promise events (property C15: every promise callback runs exactly once, also when it is registered
+// while the event is being triggered), read by the verification machinery in /verif. Comment-only file.
+//
+// The callbacks map is nil exactly when the event has been triggered (monitor state of e.mutex). Trigger takes the whole
+// map and sets the field to nil in ONE critical section: the callbacks registered until then are the ones it runs.
+// OnTrigger registers in ONE critical section and reports whether it did; it invokes the callback itself only if it did
+// NOT register it (then the event had been triggered before, and Trigger will never see the callback). So a callback is
+// run by exactly one of the two. (Event1 has the same structure plus the stored value; only Event is under contract.)
+
+/*@
+type Event
+  monitor mutex level 5 guards callbacks, callbackIDs
+
+assume-func github.com/iotaledger/hive.go/runtime/promise.void()
+  ensures true
+assume-func github.com/iotaledger/hive.go/ds/shrinkingmap.ShrinkingMap.Values(s) (r)
+  requires s != nil
+
+func uniqueID.Next
+  opt sequential
+  opt assume-no-overflow
+  requires u != nil
+  modifies *u
+  ensures *u == old(*u) + 1 && r0 == *u
+
+-- registration closure: subscribed iff the event had not been triggered; then the callback is in the map
+func Event.OnTrigger$1
+  opt sequential
+  opt assume-no-overflow
+  requires e != nil && *e != nil && unlocked((*e).mutex) && callback != nil && ((*e).callbacks != nil ==> (*e).callbacks.m != nil && unlocked((*e).callbacks.mutex))
+  modifies (*e).callbackIDs, map((*e).callbacks.m)
+  ensures unlocked((*e).mutex) && unsubscribe != nil
+  ensures subscribed <==> old((*e).callbacks != nil)
+  ensures subscribed ==> has((*e).callbacks.m, (*e).callbackIDs) && (*e).callbacks.m[(*e).callbackIDs] == *callback
+  ensures (*e).callbacks == old((*e).callbacks)
+
+func Event.OnTrigger
+  opt sequential
+  requires e != nil && unlocked(e.mutex) && callback != nil && (e.callbacks != nil ==> e.callbacks.m != nil && unlocked(e.callbacks.mutex))
+  callback callback()
+  modifies everything
+  ghost before call Event.OnTrigger#callback: assert !subscribed        -- run here only if it was not handed to Trigger
+  ensures unlocked(e.mutex)
+
+-- the triggering critical section: the map is taken and the event marked triggered at once
+func Event.Trigger$1
+  opt sequential
+  requires e != nil && *e != nil && unlocked((*e).mutex) && wasTriggered != nil && ((*e).callbacks != nil ==> (*e).callbacks.m != nil && unlocked((*e).callbacks.mutex))
+  modifies (*e).callbacks, *wasTriggered
+  ensures unlocked((*e).mutex) && (*e).callbacks == nil
+  ensures *wasTriggered <==> old((*e).callbacks != nil)
+  ensures !*wasTriggered ==> len(r0) == 0
+
+@*/
